@@ -382,7 +382,9 @@ def concatStreamC (final : Bool) (children : List SResult) : Option SResult :=
 /-! ## whole trees: `source()` and `stream_chunks` with the checked pieces in place
 
 Nodes whose arithmetic is not restated in checked form (OriginalSource's tokenizer, the combined map, the position bookkeeping of
-ReplaceSource streaming) pass through the total model; ConcatSource uses the crate's saturating column addition. -/
+ReplaceSource streaming) pass through the total model; ConcatSource uses the crate's saturating column addition, and with
+`ovf = true` (a build with overflow checks) its `u32` line / column bookkeeping is checked as well — in a release build those
+additions wrap silently, so `ovf = false` leaves them unchecked. -/
 
 mutual
 def _root_.Rs.Src.srcC : Src → Option Text
@@ -409,7 +411,7 @@ def _root_.Rs.SrcList.srcsC : SrcList → Option Text
 end
 
 mutual
-def _root_.Rs.Src.streamC : Src → Opts → Store → Option (SResult × Store)
+def _root_.Rs.Src.streamC (ovf : Bool) : Src → Opts → Store → Option (SResult × Store)
   | .raw _ _ lossy, o, σ => (streamRawC lossy o).map (·, σ)
   | .rawStr t, o, σ => (streamRawC t o).map (·, σ)
   | .rawBuf _ lossy, o, σ => (streamRawC lossy o).map (·, σ)
@@ -418,19 +420,19 @@ def _root_.Rs.Src.streamC : Src → Opts → Store → Option (SResult × Store)
     match inner with
     | some im => some (streamCombined t map name origSrc im remove o, σ)
     | none => (streamSMC t map o).map (·, σ)
-  | .concat .nil, o, σ => (concatStreamC o.final []).map (·, σ)
+  | .concat .nil, o, σ => ((if ovf then concatStreamC o.final [] else some (concatStreamS o.final []))).map (·, σ)
   | .concat (.cons s rest), o, σ =>
     match rest with
-    | .nil => s.streamC o σ
+    | .nil => s.streamC ovf o σ
     | rest =>
-      match s.streamC o σ with
+      match s.streamC ovf o σ with
       | none => none
       | some r =>
-        match rest.streamsC o r.2 with
+        match rest.streamsC ovf o r.2 with
         | none => none
-        | some r2 => (concatStreamC o.final (r.1 :: r2.1)).map (·, r2.2)
+        | some r2 => ((if ovf then concatStreamC o.final (r.1 :: r2.1) else some (concatStreamS o.final (r.1 :: r2.1)))).map (·, r2.2)
   | .replace inner rs, o, σ =>
-    match inner.streamC ⟨o.columns, false⟩ σ with
+    match inner.streamC ovf ⟨o.columns, false⟩ σ with
     | none => none
     | some r => some (replaceStream (sortRepls rs) r.1, r.2)
   | .cached id inner, o, σ =>
@@ -438,16 +440,16 @@ def _root_.Rs.Src.streamC : Src → Opts → Store → Option (SResult × Store)
     | some (some m) => (streamSMC inner.src m o).map (·, σ)
     | some none => (streamRawC inner.src o).map (·, σ)
     | none =>
-      match inner.streamC o σ with
+      match inner.streamC ovf o σ with
       | none => none
       | some r => some (r.1, r.2.insertNew (id, o) (mapOfEvs o.columns r.1.evs))
-def _root_.Rs.SrcList.streamsC : SrcList → Opts → Store → Option (List SResult × Store)
+def _root_.Rs.SrcList.streamsC (ovf : Bool) : SrcList → Opts → Store → Option (List SResult × Store)
   | .nil, _, σ => some ([], σ)
   | .cons s rest, o, σ =>
-    match s.streamC o σ with
+    match s.streamC ovf o σ with
     | none => none
     | some r =>
-      match rest.streamsC o r.2 with
+      match rest.streamsC ovf o r.2 with
       | none => none
       | some r2 => some (r.1 :: r2.1, r2.2)
 end
